@@ -20,7 +20,8 @@ UNIVERSE = [
 ]
 
 # a small universe for key cells: many ties, every rung of the ladder
-SMALL_KEYS = [None, True, 1, 1.0, 2, -1, 2.5, D('2.5'), 'a', 'b', b'a', dt.date(2020, 1, 1),
+SMALL_KEYS = [None, True, 1, 1.0, 2, -1, 2.5, D('2.5'), 0.1, D('0.1'), 'a', 'b', b'a', dt.date(2020, 1, 1),      # 0.1 != Decimal('0.1'), though float(Decimal('0.1')) == 0.1
+             
               dt.datetime(2020, 1, 1), (1, 'a'), (1, None)]
 # hashable scalar keys only, few distinct values
 SCALAR_KEYS = [None, 1, 2, 3, 'a', 'b', 2.5, True, -1, -2]      # hash(-1) == hash(-2) in CPython
